@@ -36,6 +36,10 @@ type VerifSimClient struct {
 	// Lost marks the connection as lost: every later command fails and OnInvalidations(nil) has been delivered once
 	Lost    bool
 	waiters int
+	reader  bool // StartReader was called: trailing pushes are left to the reader thread
+	// Latency (opt-in, sim flavour): every Do/DoMulti/DoCache takes this much virtual time before it reaches the
+	// server (the calling thread sleeps), so a loop of round trips lets the virtual clock advance.
+	Latency time.Duration
 }
 
 type vsub struct {
@@ -78,11 +82,18 @@ func itoa(n int) string {
 }
 
 // pump decodes everything the server has sent: pushes are dispatched, the (single) normal reply is returned.
-func (c *VerifSimClient) pump() (reply RedisMessage, got bool) {
+func (c *VerifSimClient) pump() (reply RedisMessage, got bool) { return c.pumpUntil(false) }
+
+// pumpUntil: with stopAtReply (used for a command's reply when a reader thread exists, see StartReader) decoding
+// stops after the first normal reply and the bytes that follow it (pushes sent after the reply, e.g. Redis 7
+// self-invalidations) stay in the buffer for the reader thread: the real connection reader hands the reply to the
+// caller and goes on reading, so the caller may continue before those pushes are processed.
+func (c *VerifSimClient) pumpUntil(stopAtReply bool) (reply RedisMessage, got bool) {
 	if c.buf.Len() == 0 {
 		return
 	}
-	r := bufio.NewReader(bytes.NewReader(append([]byte{}, c.buf.Bytes()...)))
+	under := bytes.NewReader(append([]byte{}, c.buf.Bytes()...))
+	r := bufio.NewReader(under)
 	c.buf.Reset()
 	for {
 		m, err := readNextMessage(r)
@@ -94,6 +105,20 @@ func (c *VerifSimClient) pump() (reply RedisMessage, got bool) {
 			continue
 		}
 		reply, got = m, true
+		if stopAtReply {
+			rest := make([]byte, r.Buffered())
+			r.Read(rest)
+			tail := make([]byte, under.Len())
+			under.Read(tail)
+			rest = append(rest, tail...)
+			if len(rest) > 0 {
+				newer := append([]byte{}, c.buf.Bytes()...) // written while callbacks ran
+				c.buf.Reset()
+				c.buf.Write(rest)
+				c.buf.Write(newer)
+			}
+			return
+		}
 	}
 }
 
@@ -162,6 +187,7 @@ func (c *VerifSimClient) StartReader(name string) {
 	if vsched.X == nil {
 		return
 	}
+	c.reader = true
 	vsched.GoDaemon(name, func() {
 		for {
 			vsched.Point("simclient.reader", func() bool { return c.buf.Len() > 0 || c.closed || c.Lost })
@@ -171,6 +197,12 @@ func (c *VerifSimClient) StartReader(name string) {
 			c.pump()
 		}
 	})
+}
+
+func (c *VerifSimClient) lag() {
+	if c.Latency > 0 && vsched.Active() {
+		vsched.Sleep(c.Latency)
+	}
 }
 
 func (c *VerifSimClient) raw(argv []string) RedisResult {
@@ -193,7 +225,7 @@ func (c *VerifSimClient) raw(argv []string) RedisResult {
 	}
 	c.Calls = append(c.Calls, append([]string{}, argv...))
 	c.Srv.Feed(c.Sess, argv)
-	m, ok := c.pump()
+	m, ok := c.pumpUntil(c.reader)
 	if !ok {
 		return NewResult(RedisMessage{}, nil)
 	}
@@ -225,6 +257,7 @@ func (c *VerifSimClient) B() Builder { return cmds.NewBuilder(cmds.NoSlot) }
 
 func (c *VerifSimClient) Do(ctx context.Context, cmd Completed) (resp RedisResult) {
 	vsched.Point("simclient.do", nil)
+	c.lag()
 	if err := ctx.Err(); err != nil {
 		return NewErrorResult(err)
 	}
@@ -252,6 +285,7 @@ func (c *VerifSimClient) Do(ctx context.Context, cmd Completed) (resp RedisResul
 
 func (c *VerifSimClient) DoMulti(ctx context.Context, multi ...Completed) (resp []RedisResult) {
 	vsched.Point("simclient.domulti", nil)
+	c.lag()
 	resp = make([]RedisResult, len(multi))
 	if err := ctx.Err(); err != nil {
 		for i := range resp {
@@ -272,6 +306,7 @@ func (c *VerifSimClient) DoMulti(ctx context.Context, multi ...Completed) (resp 
 
 func (c *VerifSimClient) DoCache(ctx context.Context, cmd Cacheable, ttl time.Duration) (resp RedisResult) {
 	vsched.Point("simclient.docache", nil)
+	c.lag()
 	if err := ctx.Err(); err != nil {
 		return NewErrorResult(err)
 	}
